@@ -618,6 +618,23 @@ def spec_panic_sites(prog, rep=None):
                             allowed.add((strip_generics(stmt["rv"]["def"]), "PANIC"))
                             if rep is not None:
                                 rep.instance("%s: %s in a path-mapping closure (ids from get_path_by_id)" % (b.key, nm))
+    # the loop of try_recover that grows the declared size of every open master: blocks inside a loop driven by an iterator over tag_stack
+    # (the addition there is what R-RECOVER-STRETCH checks; its overflow is A-OFF's, whatever the operands are called)
+    try:
+        from rules.writer import local_sources as _ls
+        tr = prog.bodies.get(ITER + "::try_recover")
+        if tr is not None:
+            for cb, t, c in tr.calls():
+                if c is None or not strip_generics(c["path"]).endswith("::next") or not t["args"] or t["args"][0].get("k") not in ("copy", "move"):
+                    continue
+                if "field:tag_stack" not in _ls(tr, t["args"][0]["place"]["local"]):
+                    continue
+                fwd = tr.reachable_from(cb)
+                for b2 in fwd:
+                    if b2 != cb and cb in tr.reachable_from(b2):
+                        allowed.add((ITER + "::try_recover", "STRETCH@%d" % b2))
+    except Exception:
+        pass
     return allowed
 
 
@@ -763,7 +780,8 @@ def _classify(res, allowed_spec, rep, prefix, fn_filter=None, kinds=None):
                 if A_COUNT not in rep.assumed:
                     rep.assumed.append(A_COUNT)
                 continue
-            if fn == ITER + "::try_recover" and kind == "ASSERT" and desc.startswith("Overflow(Add)(_"):
+            if fn == ITER + "::try_recover" and kind == "ASSERT" and (desc.startswith("Overflow(Add)(_") or
+                                                                      (desc.startswith("Overflow(Add)(") and (fn, "STRETCH@%d" % o["bb"]) in allowed_spec)):
                 # a declared size grown by the skipped distance (what is added to what is checked by R-RECOVER-STRETCH): A-OFF covers it,
                 # whether the sum is written with the checked operator or through std's wrapping `&usize + usize`
                 rep.obligations += 1
